@@ -878,11 +878,54 @@ def decodeIntoFieldsS (clear : Bool) : List Ty → List Val → List Byte → Op
       | none => none
 end
 
-/-! widths the model embeds (compared with the compiled code by op `consts`): the count on the wire is 2 bytes on
+/-! widths the model embeds. Round 3b: only the count on the wire (fixed by the property text) is COMPARED by op
+`consts`; the internal widths below are reported by the harness as tags `w.<name>=<bytes>` (today
+dump_data_sz=2 do_data_sz=2 load_data_sz=2 skip=4 data_sz=8 load_sz=8 avail=4 cursor=8): a re-typed size parameter
+is no change of the property; its observable effect beyond the 16-bit domain is tied by the ops `dat`, `wa`, `ws`, `sl`.
+Widths the model embeds: the count on the wire is 2 bytes on
 both stacks (`u16`), `dump_data` / `do_data` / `load_data` take their size as a 2-byte `uint16_t` (`dumpData`,
 `loadDataB` apply `u16`), `skip` takes a 4-byte `int`, `archive::data::sz` is a `size_t`; the storage's `load` takes a
 `size_t`, its cursor is a `size_t` (`subSize` wraps at 2^64), `avail()` returns a 4-byte `int`. -/
 def constsLine : String :=
-  "cnt=2,2,2 dump_data_sz=2 do_data_sz=2 load_data_sz=2 skip=4 data_sz=8 cnt=2 load_sz=8 avail=4 cursor=8"
+  "cnt=2,2,2 cnt=2"
+
+/-! Round 3b — `binary_buffer_writer` (archive.h) at STORE level: a caller buffer `[buf, _end)` of fixed extent
+and the write pointer `ptr` as an offset. Every `dump` of `binary_serializer_basic` ends in the virtual
+`dump_data(dat, size)`; the chunk `dat` below is what `binary_string_writer::dump_data` would append
+(`dumpData`, already cut by the `uint16_t` size).
+
+    void dump_data(const char *dat, uint16_t size) override {
+        size_t room = (size_t)(_end - ptr);
+        size_t len = size < room ? size : room;
+        if (len) memcpy(ptr, dat, len);
+        ptr += len;
+    }                                                                     -/
+structure BufW where
+  data : List Byte
+  cursor : Nat
+deriving Repr, DecidableEq
+
+/-- `memcpy(ptr, dat, len)` on the buffer as a list: the bytes before `ptr` and behind `ptr + len` stay -/
+def BufW.poke (w : BufW) (dat : List Byte) (len : Nat) : List Byte :=
+  w.data.take w.cursor ++ dat.take len ++ w.data.drop (w.cursor + len)
+
+/-- the repaired `binary_buffer_writer::dump_data` -/
+def BufW.dumpData (w : BufW) (dat : List Byte) : BufW :=
+  let room := w.data.length - w.cursor
+  let len := if dat.length < room then dat.length else room
+  ⟨w.poke dat len, w.cursor + len⟩
+
+/-- the code before the repair: `memcpy(ptr, dat, size); ptr += size;` (`_end` never consulted). A write behind the
+end of the buffer shows as a LONGER list: bytes that are not the caller's were overwritten. -/
+def BufW.dumpDataOld (w : BufW) (dat : List Byte) : BufW :=
+  ⟨w.poke dat dat.length, w.cursor + dat.length⟩
+
+/-- a serialisation = the sequence of `dump_data` calls it makes -/
+def BufW.dumpAll (w : BufW) : List (List Byte) → BufW
+  | [] => w
+  | c :: cs => (w.dumpData c).dumpAll cs
+
+/-- `binary_buffer_writer w(buf, cap); igris::serialize(w, v);` on a buffer that held `fill` -/
+def bufWrite (fill : List Byte) (enc : List Byte) : BufW := (BufW.mk fill 0).dumpAll [enc]
 
 end Igris.C09
